@@ -127,35 +127,60 @@ Lemma xmr_alph_len : length xmr_alph = N.to_nat b58_radix.
 Proof. vm_compute. reflexivity. Qed.
 
 (* ---- the model on the generated constants ---- *)
+Ltac xmr_inst L := apply L; eauto using xmr_alph_nodup, xmr_alph_len, ConstsOk.b58_radix_ge2, xmr_dec_max_pos, xmr_table_len, xmr_lens_max, xmr_lens_0, xmr_lens_lt, xmr_lens_nodup, xmr_lens_fit, xmr_lens_sub, xmr_lens_ge, xmr_lens_min.
+Ltac xmr_inst_d L := apply L with (dec_max := xmr_block_dec_max); eauto using xmr_alph_nodup, xmr_alph_len, ConstsOk.b58_radix_ge2, xmr_dec_max_pos, xmr_table_len, xmr_lens_max, xmr_lens_0, xmr_lens_lt, xmr_lens_nodup, xmr_lens_fit, xmr_lens_sub, xmr_lens_ge, xmr_lens_min.
+
 Theorem xmr_decode_encode : forall b, bytes_ok b -> exists s, xmr_encode b = Ok s /\ xmr_decode s = Ok b.
-Proof.
-  exact (Lemmas.Base58Xmr.decode_encode _ _ _ _ _ xmr_alph_nodup xmr_alph_len ConstsOk.b58_radix_ge2
-           xmr_dec_max_pos xmr_table_len xmr_lens_max xmr_lens_0 xmr_lens_lt xmr_lens_nodup xmr_lens_fit xmr_lens_sub).
-Qed.
+Proof. xmr_inst Lemmas.Base58Xmr.decode_encode. Qed.
+
+(* canonicity of the decoder with the block-value check *)
+Theorem xmr_encode_decode : forall s b, xmr_decode s = Ok b -> xmr_encode b = Ok s /\ bytes_ok b.
+Proof. xmr_inst Lemmas.Base58Xmr.encode_decode. Qed.
+
+Theorem xmr_decode_accepts_iff : forall s,
+  (exists b, xmr_decode s = Ok b) <-> (exists b, bytes_ok b /\ xmr_encode b = Ok s).
+Proof. xmr_inst Lemmas.Base58Xmr.decode_accepts_iff. Qed.
+
+Theorem xmr_decode_err : forall s e, xmr_decode s = Err e -> e = ValueError.
+Proof. intros s e. apply Lemmas.Base58Xmr.decode_err. Qed.
+
+Theorem xmr_encode_inj : forall b1 b2 s, bytes_ok b1 -> bytes_ok b2 ->
+  xmr_encode b1 = Ok s -> xmr_encode b2 = Ok s -> b1 = b2.
+Proof. xmr_inst Lemmas.Base58Xmr.encode_inj. Qed.
+
+(* the decoder of the current code: same round trip, accepts everything the checked decoder accepts *)
+Theorem xmr_decode_current_encode : forall b, bytes_ok b ->
+  exists s, xmr_encode b = Ok s /\ xmr_decode_current s = Ok b.
+Proof. xmr_inst Lemmas.Base58Xmr.decode_current_encode. Qed.
+
+Theorem xmr_decode_current_of : forall s b, xmr_decode s = Ok b -> xmr_decode_current s = Ok b.
+Proof. intros s b. apply Lemmas.Base58Xmr.decode_current_of. Qed.
+
+Theorem xmr_decode_current_err : forall s e, xmr_decode_current s = Err e -> e = ValueError.
+Proof. intros s e. apply Lemmas.Base58Xmr.decode_current_err. Qed.
 
 (* __UnPad's slice start len(dec) - unpad_len is never negative, for every block string *)
 Theorem xmr_block_dec_length : forall s d e dec, nth_error xmr_block_enc_lens d = Some e -> length s = e ->
   xmr_b58dec s = Ok dec -> (d <= length dec)%nat.
-Proof.
-  apply Lemmas.Base58Xmr.block_dec_length with (dec_max := xmr_block_dec_max); eauto using xmr_alph_nodup, xmr_alph_len, ConstsOk.b58_radix_ge2, xmr_dec_max_pos, xmr_table_len, xmr_lens_max, xmr_lens_0, xmr_lens_lt, xmr_lens_nodup, xmr_lens_fit, xmr_lens_sub, xmr_lens_ge, xmr_lens_min.
-Qed.
+Proof. xmr_inst_d Lemmas.Base58Xmr.block_dec_length. Qed.
 
 Theorem xmr_block_canonical_iff : forall s d e dec v,
   nth_error xmr_block_enc_lens d = Some e -> length s = e ->
   xmr_b58dec s = Ok dec -> xmr_block_value s = Ok v ->
   (xmr_pad e (xmr_b58enc (unpad d dec)) = s <-> v < 256 ^ N.of_nat d).
-Proof.
-  apply Lemmas.Base58Xmr.block_canonical_iff with (dec_max := xmr_block_dec_max); eauto using xmr_alph_nodup, xmr_alph_len, ConstsOk.b58_radix_ge2, xmr_dec_max_pos, xmr_table_len, xmr_lens_max, xmr_lens_0, xmr_lens_lt, xmr_lens_nodup, xmr_lens_fit, xmr_lens_sub, xmr_lens_ge, xmr_lens_min.
-Qed.
+Proof. xmr_inst_d Lemmas.Base58Xmr.block_canonical_iff. Qed.
 
-(* F2: the decoder accepts "zz" (block value 3363 >= 256) and returns 0x23, whose encoding is "1c" *)
-Theorem xmr_canonical_refuted : exists s b, xmr_decode s = Ok b /\ xmr_encode b <> Ok s.
+(* F2: the CURRENT decoder accepts "zz" (block value 3363 >= 256) and returns 0x23, whose encoding is "1c";
+   the checked decoder rejects it *)
+Theorem xmr_current_canonical_refuted : exists s b, xmr_decode_current s = Ok b /\ xmr_encode b <> Ok s.
 Proof.
   exists [122; 122], [35]. split; [vm_compute; reflexivity|vm_compute; discriminate].
 Qed.
+Theorem xmr_current_differs : exists s b, xmr_decode_current s = Ok b /\ xmr_decode s = Err ValueError.
+Proof. exists [122; 122], [35]. split; vm_compute; reflexivity. Qed.
 
-(* and a full 11-character block whose value exceeds 2^64 is silently truncated *)
-Theorem xmr_overflow_accepted : exists s b v, xmr_decode s = Ok b /\ xmr_block_value s = Ok v /\
+(* and a full 11-character block whose value exceeds 2^64 is silently truncated by the current code *)
+Theorem xmr_current_overflow_accepted : exists s b v, xmr_decode_current s = Ok b /\ xmr_block_value s = Ok v /\
   length b = 8%nat /\ 256 ^ 8 <= v.
 Proof.
   exists (repeat 122 11). eexists. eexists. split; [vm_compute; reflexivity|].
